@@ -86,6 +86,19 @@ def programs(tier):
               'let r = map(func (x) => x, %s);' % P(1), 'let r = filter(func (x) => select (x > %s, NULL) => {true = x}, [%s, %s]);' % (P(1), P(2), P(3)),
               'let r = map(func (x) => x + 1, []);', 'let f = func (x) => x * %s; let r = map(f, [%s]);' % (P(1), P(2))]:
         add('F9-funcop', t, 3)
+    if tier != 'quick':
+        # systematic widening: every ordered pair of operators, nested both ways, over three symbolic integers
+        allops = ops + ['&&', '||']
+        for o1 in allops:
+            for o2 in allops:
+                add('F2-nesting-all', 'let r = (%s %s %s) %s %s;' % (P(1), o1, P(2), o2, P(3)), 3)
+                add('F2-nesting-all', 'let r = %s %s (%s %s %s);' % (P(1), o1, P(2), o2, P(3)), 3)
+        # every operator applied to every pair of literal kinds (type errors must agree with the reference as well)
+        lits = [P(1), '1.5', '"s"', 'true', 'NULL', '[%s]' % P(2), '{a = %s}' % P(2)]
+        for o in ops:
+            for l1 in lits:
+                for l2 in lits:
+                    add('F1-kinds-all', 'let r = %s %s %s;' % (l1, o, l2.replace(P(1), P(3))), 3)
     add('F11-range', 'let r = %s:%s;' % (P(1), P(2)), 2, 'range2')
     add('F11-range', 'let r = %s:%s:%s;' % (P(1), P(3), P(2)), 3, 'range3')
     add('F11-range', 'let r = 1:"a";', 0)
